@@ -230,7 +230,9 @@ Print Assumptions C15_restart_index_clamped.
    For every line pos of the buffer and every nesting depth 0..7 the call returns what ExDefs computes (N.testbit) and leaves
    the memory in which exactly cell pos of ln_glob is changed to the model's new bits (N.setbit / N.clearbit) -- no load or
    store outside a block, no overflow.  dep <= 7 CANNOT be dropped: the bit 1 << dep is computed in int and stored into a char. *)
-From NV Require Import CLite CLiteProps GenCFuncs TrLbufBase TrLbufGlob.
+From NV Require CLite CLiteProps GenCFuncs TrLbufBase TrLbufGlob.
+Section C15_translated.
+Import CLite CLiteProps GenCFuncs TrLbufBase TrLbufGlob.
 
 Theorem C15_tr_lbuf_globset : forall m bl blk bg gblk (l : lbuf) pos x dep d fuel,
   nth_error m bl = Some blk -> nth_error blk L_ln_glob = Some (VPtr bg 0) -> glob_rep m bg gblk (lns l) ->
@@ -304,3 +306,4 @@ Proof.
   { split; [reflexivity|]. intros [|[|[|i]]] y Hy; cbn in Hy; [inversion Hy; subst; split; reflexivity ..|destruct i; discriminate]. }
   vm_compute. repeat split.
 Qed.
+End C15_translated.
